@@ -646,4 +646,5 @@ func scenarioL(c *harness.Ctx) {
 	}
 	c.Fold(uint64(st.maxSeen))
 }
+
 var pCacheCaseFold = simrt.NewProbe("typecache.foreign.document.with.case-variant.keys")
